@@ -103,10 +103,27 @@ def emitted_keys():
     return out
 
 
+TRUTHY = []  # (key, node, function, file): filled by consumed_keys()
+
+
+def _parsed_value(e, fn, base_tainted, key_of):
+    """the yaml key when e is the parsed value itself: x["k"], x.get("k"[, default]) or a local bound once to one"""
+    if isinstance(e, ast.Subscript) and base_tainted(e.value):
+        return key_of(e.slice)
+    if isinstance(e, ast.Call) and isinstance(e.func, ast.Attribute) and e.func.attr == "get" and e.args and base_tainted(e.func.value):
+        return key_of(e.args[0])
+    if isinstance(e, ast.Name):
+        defs = [x for x in ast.walk(fn) if isinstance(x, ast.Assign) and len(x.targets) == 1 and isinstance(x.targets[0], ast.Name) and x.targets[0].id == e.id]
+        if len(defs) == 1 and not isinstance(defs[0].value, ast.Name):
+            return _parsed_value(defs[0].value, fn, base_tainted, key_of)
+    return None
+
+
 def consumed_keys():
     """yaml keys the loaders read: subscripts / membership tests on self._yaml and on values derived from it."""
     out = {}
     tests = []  # (test key, [lookup keys in the guarded block], node)
+    del TRUTHY[:]
     tree = core.parse(YML)
     classes = [c for c in tree.body if isinstance(c, ast.ClassDef) and "Loader" in c.name]
     at = core.parse(ATOMS)
@@ -119,7 +136,11 @@ def consumed_keys():
             for p in params:
                 if p not in ("self", "key_prefix") and ("yaml" in p or "dict" in p or p in ("dataset", "nac_yaml", "d", "cell_dict")):
                     tainted.add(p)
-            built = {x.targets[0].id for x in ast.walk(fn) if isinstance(x, ast.Assign) and isinstance(x.targets[0], ast.Name) and isinstance(x.value, (ast.Dict, ast.List))}
+            asg = {}
+            for x in ast.walk(fn):
+                if isinstance(x, ast.Assign) and isinstance(x.targets[0], ast.Name):
+                    asg.setdefault(x.targets[0].id, []).append(isinstance(x.value, (ast.Dict, ast.List)))
+            built = {k_ for k_, v_ in asg.items() if all(v_)}  # names that only ever hold containers built here
             tainted -= built
             changed = True
             while changed:
@@ -176,6 +197,27 @@ def consumed_keys():
                 if isinstance(n, ast.Subscript) and base_tainted(n.value):
                     for k in keys_of(n.slice):
                         out.setdefault(k, n)
+                if isinstance(n, ast.Call) and isinstance(n.func, ast.Attribute) and n.func.attr == "get" and n.args and base_tainted(n.func.value):
+                    for k in keys_of(n.args[0]):
+                        out.setdefault(k, n)
+                # presence decided by the truthiness of the parsed value: if x.get("k"): / if x["k"]: / if v: with v = x.get("k")
+                conds = []
+                if isinstance(n, (ast.If, ast.While, ast.IfExp)):
+                    conds = [n.test]
+                elif isinstance(n, ast.comprehension):
+                    conds = list(n.ifs)
+                for c_ in conds:
+                    stack = [c_]
+                    while stack:
+                        t_ = stack.pop()
+                        if isinstance(t_, ast.BoolOp):
+                            stack += t_.values
+                        elif isinstance(t_, ast.UnaryOp) and isinstance(t_.op, ast.Not):
+                            stack.append(t_.operand)
+                        else:
+                            pv = _parsed_value(t_, fn, base_tainted, key_of)
+                            if pv:
+                                TRUTHY.append((pv, t_, core.qualname_of(fn), YML if isinstance(cls, ast.ClassDef) else ATOMS))
                 if isinstance(n, ast.Compare) and isinstance(n.ops[0], (ast.In, ast.NotIn)) and base_tainted(n.comparators[0]):
                     for k in keys_of(n.left):
                         out.setdefault(k, n)
@@ -239,6 +281,12 @@ def run(rep: core.Report):
             rep.note(f"latent: {qn} tests '{tk}' but reads '{mism[0]}' (identical while key_prefix is empty, which is all phonopy itself uses)")
         rep.instance("R16a", YML, qn, f"if '{tk}' in …: reads {sorted(set(looks))[:4]}", True, "", line=n.lineno, nontrivial=False)
 
+    rep.rule("R16q", "the loaders decide whether a field is present by membership / comparison with None, never by the truthiness of the parsed value: a stored 0, 0.0 or empty list is a value (a magnetic moment of exactly zero, a zero displacement) and must come back as stored", 15)
+    for tk, looks, n, qn in tests:
+        rep.instance("R16q", YML, qn, f"presence of '{tk}' by membership test", True, "", line=n.lineno, nontrivial=False)
+    for k, n, qn, rel in TRUTHY:
+        rep.instance("R16q", rel, qn, f"truth value of parsed '{k}'", False,
+                     f"'{core.norm(core.src(n), 60)}' uses the parsed value of '{k}' as the test for its presence: a stored value that is falsy (0, 0.0, an empty list) is treated as absent, so the field is dropped or misaligned on reload although the file holds it", line=n.lineno)
     _r16b(rep)
     _r16c(rep)
     _r16e(rep)
@@ -1109,6 +1157,8 @@ def selftest():
     YML_ = "phonopy/interface/phonopy_yaml.py"
     b("dataset section only under the displacements setting", YML_, "        lines = []\n        if (\n            self._dumper_settings[\"force_sets\"]\n            or self._dumper_settings[\"displacements\"]\n        ):\n            disp_yaml_lines = self._displacements_yaml_lines(\n                with_forces=self._dumper_settings[\"force_sets\"]\n            )\n            lines += disp_yaml_lines\n        return lines\n", "        if not self._dumper_settings[\"displacements\"]:\n            return []\n        return self._displacements_yaml_lines(\n            with_forces=self._dumper_settings[\"force_sets\"]\n        )\n", "R16l", "_dataset_yaml_lines")
     n("dataset section with early return on both settings off", YML_, "        lines = []\n        if (\n            self._dumper_settings[\"force_sets\"]\n            or self._dumper_settings[\"displacements\"]\n        ):\n            disp_yaml_lines = self._displacements_yaml_lines(\n                with_forces=self._dumper_settings[\"force_sets\"]\n            )\n            lines += disp_yaml_lines\n        return lines\n", "        with_forces = self._dumper_settings[\"force_sets\"]\n        if not (with_forces or self._dumper_settings[\"displacements\"]):\n            return []\n        return self._displacements_yaml_lines(with_forces=with_forces)\n")
+    b("magnetic moment read under a truthiness test", ATOMS, '            if "magnetic_moment" in x:\n                magnetic_moments.append(x["magnetic_moment"])', '            if x.get("magnetic_moment"):\n                magnetic_moments.append(x["magnetic_moment"])', "R16q", "magnetic_moment")
+    n("magnetic moment read under a None test", ATOMS, '            if "magnetic_moment" in x:\n                magnetic_moments.append(x["magnetic_moment"])', '            if x.get("magnetic_moment") is not None:\n                magnetic_moments.append(x["magnetic_moment"])')
     b("dumper renames dielectric key", YML, 'lines.append("  dielectric_constant:")', 'lines.append("  dielectric_tensor:")', "R16a", "dielectric_constant")
     b("loader looks for 'forceconstants'", YML, 'self._yaml["force_constants"]', 'self._yaml["forceconstants"]', "R16a", "force", nth=0)
     b("save overrides the caller's explicit request", API, '        if _settings.get("force_constants") is False:\n            pass\n        elif not forces_in_dataset(self.dataset) and self.force_constants is not None:\n            _settings.update({"force_constants": True})', '        if _settings.get("force_constants", True) and self.force_constants is not None:\n            _settings["force_constants"] = not forces_in_dataset(self.dataset)', "R16b", "only ever set to True")
